@@ -65,6 +65,14 @@ func CaseFromLine(line string) *Case {
 			}
 		}
 	}
+	if v, ok := m["sub"]; ok && v != "-" && v != "" {
+		for _, x := range strings.Split(v, "+") {
+			f := strings.SplitN(x, ":", 2)
+			if len(f) == 2 {
+				c.Subs = append(c.Subs, Sub{Pos: int(atoi(f[0])), Data: Unhx(f[1])})
+			}
+		}
+	}
 	c.Tags = append(c.Tags, "corpus")
 	return c
 }
